@@ -279,8 +279,11 @@ class SyncInterpreter(BaseInterpreter[TContext, TEvent]):
                         del registry[system_id]
 
         # 2️⃣ Cancel all `after` timers by signaling their cancellation events
-        for state_id in list(self._after_events.keys()):
-            self._after_events[state_id].set()
+        # 📝 Iterate a copy of the VALUES: a timer thread that expires right
+        #    now removes its own entry, and looking the key up again raised
+        #    KeyError out of `stop()`.
+        for cancel_event in list(self._after_events.values()):
+            cancel_event.set()
         self._after_events.clear()
         self._after_threads.clear()
 
@@ -1341,18 +1344,19 @@ class SyncInterpreter(BaseInterpreter[TContext, TEvent]):
             return
 
         for key in to_cancel:
-            try:
-                logger.debug(
-                    "🧹 Cancelling 'after' timer key='%s' (owner='%s')",
-                    key,
-                    state.id,
-                )
-                self._after_events[key].set()  # signal cancellation
-            finally:
-                # Remove from tracking dicts whether the thread is alive or not;
-                # the thread cleans itself up on exit as well.
-                self._after_events.pop(key, None)
-                self._after_threads.pop(key, None)
+            logger.debug(
+                "🧹 Cancelling 'after' timer key='%s' (owner='%s')",
+                key,
+                state.id,
+            )
+            # Remove from tracking dicts whether the thread is alive or not;
+            # the thread cleans itself up on exit as well — possibly right
+            # now, so the entry may already be gone (indexing it raised
+            # KeyError in the middle of the transition).
+            cancel_event = self._after_events.pop(key, None)
+            if cancel_event is not None:
+                cancel_event.set()  # signal cancellation
+            self._after_threads.pop(key, None)
 
     def _after_timer(
         self, delay_sec: float, event: AfterEvent, owner_id: str
